@@ -16,7 +16,15 @@ import fsobs  # noqa: E402
 import scenarios  # noqa: E402
 from common import App, permissive_rights  # noqa: E402
 
-PROP_FILES = ["Props/C12.lean"]
+PROP_FILES = ["Props/C12.lean", "Props/C12Flag.lean"]
+
+
+def pre_build():
+    """the writes of the storage-wide fsync flag are translated from /repo's current source on every run (harness/lockshape.py)"""
+    import lockshape
+    here = os.path.dirname(os.path.dirname(os.path.dirname(os.path.abspath(__file__))))
+    lockshape.write_lean(lockshape.generate(os.environ.get("VERIF_REPO", "/repo")), os.path.join(here, "lean", "Generated", "LockShape.lean"))
+
 LEVEL = "proof"
 
 
